@@ -69,21 +69,21 @@ Definition enc_step (s : enc_static) (c : enc_cfg) (a : enc_arch) (m : enc_meth)
       end
   | ECnn a, KCnn c, ECAddChannel hl nn => let '(a', nm, rt) := cnn_add_channel c a hl nn r1 r2 in (ECnn a', nm, rt)
   | ECnn a, KCnn c, ECRemoveChannel hl nn => let '(a', nm, rt) := cnn_remove_channel c a hl nn r1 r2 in (ECnn a', nm, rt)
-  | ESimba a, KScalar c, ESAddNode nn => let '(a', nm, rt) := s_add_node simba_params c a nn r1 in (ESimba a', nm, rt)
-  | ESimba a, KScalar c, ESRemoveNode nn => let '(a', nm, rt) := s_remove_node simba_params c a nn r1 in (ESimba a', nm, rt)
-  | ELstm a, KScalar c, ESAddNode nn => let '(a', nm, rt) := s_add_node lstm_params c a nn r1 in (ELstm a', nm, rt)
-  | ELstm a, KScalar c, ESRemoveNode nn => let '(a', nm, rt) := s_remove_node lstm_params c a nn r1 in (ELstm a', nm, rt)
+  | ESimba a, KScalar c, ESAddNode nn => let '(a', nm, rt) := s_add_node simba_params c a nn r2 in (ESimba a', nm, rt)
+  | ESimba a, KScalar c, ESRemoveNode nn => let '(a', nm, rt) := s_remove_node simba_params c a nn r2 in (ESimba a', nm, rt)
+  | ELstm a, KScalar c, ESAddNode nn => let '(a', nm, rt) := s_add_node lstm_params c a nn r2 in (ELstm a', nm, rt)
+  | ELstm a, KScalar c, ESRemoveNode nn => let '(a', nm, rt) := s_remove_node lstm_params c a nn r2 in (ELstm a', nm, rt)
   | _, _, _ => (a, "", [])
   end.
 
 Definition net_step (s : net_static) (c : net_cfg) (a : net_arch) (m : net_meth) (r1 r2 : Z) : step_out net_arch :=
   match m with
   | NAddLatent nn =>
-      let n := arg nn (choose latent_choices r1) in
+      let n := arg nn (choose latent_choices r2) in
       ((if n_latent a + n <? n_max_latent c                                       (* strict *)
         then {| n_latent := n_latent a + n; n_enc := n_enc a; n_head := n_head a |} else a), "add_latent_node", [n])
   | NRemoveLatent nn =>
-      let n := arg nn (choose latent_choices r1) in
+      let n := arg nn (choose latent_choices r2) in
       ((if n_min_latent c <? n_latent a - n                                       (* strict *)
         then {| n_latent := n_latent a - n; n_enc := n_enc a; n_head := n_head a |} else a), "remove_latent_node", [n])
   | NEnc em =>
